@@ -1,13 +1,56 @@
 package engine
 
-// notDecided lists the clauses of each property that this family of technique does not decide.
+import (
+	"bufio"
+	"os"
+	"path/filepath"
+	"strings"
+	"sync"
+)
+
+// Per-property lists that go into every evidence file: what the check does NOT decide, and assumptions that are specific to the
+// property (the assumptions met while generating the obligations are collected separately). Source: /verif/contracts/limits.txt,
+// one entry per line:  Cxx | not-decided | text      or      Cxx | assumption | text
+
+var (
+	propInfoOnce    sync.Once
+	propNotDecided  = map[string][]string{}
+	propAssumptions = map[string][]string{}
+)
+
+func loadPropInfo() {
+	fh, err := os.Open(filepath.Join(verifHome(), "contracts", "limits.txt"))
+	if err != nil {
+		return
+	}
+	defer fh.Close()
+	sc := bufio.NewScanner(fh)
+	sc.Buffer(make([]byte, 1<<20), 1<<20)
+	for sc.Scan() {
+		ln := strings.TrimSpace(sc.Text())
+		if ln == "" || strings.HasPrefix(ln, "#") {
+			continue
+		}
+		ps := strings.SplitN(ln, "|", 3)
+		if len(ps) != 3 {
+			continue
+		}
+		id, kind, text := strings.TrimSpace(ps[0]), strings.TrimSpace(ps[1]), strings.TrimSpace(ps[2])
+		switch kind {
+		case "not-decided":
+			propNotDecided[id] = append(propNotDecided[id], text)
+		case "assumption":
+			propAssumptions[id] = append(propAssumptions[id], text)
+		}
+	}
+}
+
 func notDecided(prop string) []string {
+	propInfoOnce.Do(loadPropInfo)
 	return propNotDecided[prop]
 }
 
 func baseAssumptions(prop string) []string {
+	propInfoOnce.Do(loadPropInfo)
 	return propAssumptions[prop]
 }
-
-var propNotDecided = map[string][]string{}
-var propAssumptions = map[string][]string{}
